@@ -86,7 +86,7 @@ def run(ctx) -> list[Inst]:
             if not navigates:
                 continue
             construct = f'(2) while {stmt_text(n.test)}: visited-set worklist'
-            ok, why = _worklist(n)
+            ok, why = _worklist(n, ctx.cfg(g))
             if ok:
                 # the visited set starts EMPTY: a start asset that is reached again (cycle, self-link, or
                 # from another start asset) belongs to closure+ and must not be filtered out
@@ -116,7 +116,7 @@ def run(ctx) -> list[Inst]:
     return insts
 
 
-def _worklist(w: ast.While):
+def _worklist(w: ast.While, cfg=None):
     if not isinstance(w.test, ast.Name):
         # `while frontier != []` / len(frontier) > 0
         names = [x.id for x in ast.walk(w.test) if isinstance(x, ast.Name)]
@@ -162,12 +162,41 @@ def _worklist(w: ast.While):
                     guard = (par, m[1].id)
                     break
             cur = par
+        region = None
+        if guard is None and cfg is not None:
+            # guard clause form: `if x in V: continue` earlier in the same iteration - an if-node that dominates the
+            # add, tests membership of x in V, and whose "is a member" branch cannot reach the add in this iteration
+            anode = cfg.owner(a)
+            hdr = anode.loop if anode is not None else None
+            for gnode in (cfg.nodes if anode is not None else []):
+                if gnode.kind != 'if' or gnode is anode or not cfg.dominates(gnode, anode):
+                    continue
+                m = membership(gnode.ast.test, x)
+                if m is None or m[2] != 'member' or not isinstance(m[1], ast.Name):
+                    continue
+                member_lab = 'T' if m[0] else 'F'
+                avoid = {hdr.idx} if hdr is not None else set()
+                outer = hdr
+                while outer is not None:
+                    avoid.add(outer.idx)
+                    outer = outer.loop
+                reach = set()
+                for t, l in gnode.succ:
+                    if l == member_lab:
+                        reach |= {t.idx} | cfg.reachable_from(t, avoiding=avoid)
+                if anode.idx not in reach:
+                    guard = (gnode.ast, m[1].id)
+                    # statements controlled by the non-member branch, up to the add: the region where V must be marked
+                    region = [n_.ast for n_ in cfg.nodes if cfg.dominates(gnode, n_) and n_.loop is anode.loop
+                              and n_.kind == 'stmt']
+                    break
         if guard is None:
             return False, f"'{stmt_text(a)}' is not guarded by a 'not in visited' test of '{x}'"
         ifn, V = guard
+        scope = region if region is not None else ifn.body
         marked = any(isinstance(c, ast.Call) and isinstance(c.func, ast.Attribute)
                      and c.func.attr in ('add', 'append') and is_name(c.func.value, V)
-                     for s in ifn.body for c in ast.walk(s))
+                     for s in scope for c in ast.walk(s))
         if not marked:
             return False, f"'{x}' is never added to '{V}' in the guarded branch"
         visited_names.add(V)
